@@ -305,6 +305,17 @@ func (r *resolver) ResolveType(t *parser.Type) (err error) {
 // included IDL or -1 if the enum is defined in the given AST.
 // When such an enum is not found, getEnum returns (nil, -1).
 func getEnum(ast *parser.Thrift, name string) (enum *parser.Enum, includeIndex int32) {
+	return getEnumRec(ast, name, make(map[string]bool))
+}
+
+// getEnumRec is getEnum with the set of (file, name) pairs already visited: a
+// typedef cycle (diagnosed later by ResolveTypedefs) must not recurse forever.
+func getEnumRec(ast *parser.Thrift, name string, visited map[string]bool) (enum *parser.Enum, includeIndex int32) {
+	key := ast.Filename + "\x00" + name
+	if visited[key] {
+		return nil, -1
+	}
+	visited[key] = true
 	c, exist := ast.Name2Category[name]
 	if !exist {
 		return nil, -1
@@ -321,12 +332,12 @@ func getEnum(ast *parser.Thrift, name string) (enum *parser.Enum, includeIndex i
 			panic(fmt.Errorf("expect %q to be an typedef in %q, not found", name, ast.Filename))
 		} else {
 			if r := x.Type.Reference; r != nil {
-				e, _ := getEnum(ast.Includes[r.Index].Reference, r.Name)
+				e, _ := getEnumRec(ast.Includes[r.Index].Reference, r.Name, visited)
 				if e != nil {
 					return e, r.Index
 				}
 			}
-			return getEnum(ast, x.Type.Name)
+			return getEnumRec(ast, x.Type.Name, visited)
 		}
 	}
 	return nil, -1
